@@ -408,6 +408,51 @@ def sibling_function_rule(rule, c, pairs, exceptions=None):
     return n
 
 
+def fallback_scale_rule(rule, c, fn, routine, kbmod):
+    """y := alpha*op(A)*x + beta*y with an empty inner dimension reduces to y := beta*y: the
+    scal fallback of a wrapper scales y by the very beta (and y, incy) it hands to the main
+    routine.  Compared as argument texts, arm by arm (d with d, z with z)."""
+    node = c.funcs[fn]
+    txt = cx.strip_pp(c.text(node["b"], node["e"]))
+    txt = re.sub(r"/\*.*?\*/", "", txt, flags=re.S)
+    params = [p_[0] for p_ in kbmod.ROUTINES[routine]]
+    ib, iy, iinc = params.index("beta"), params.index("y"), params.index("incy")
+
+    def calls(pat):
+        out = []
+        for m_ in re.finditer(pat, txt):
+            i, d = m_.end(), 1
+            while i < len(txt) and d:
+                if txt[i] == "(":
+                    d += 1
+                elif txt[i] == ")":
+                    d -= 1
+                i += 1
+            out.append((m_.group(1), [re.sub(r"\s+", "", a) for a in cf.split_top(txt[m_.end():i - 1])], m_.start()))
+        return out
+    mains = calls(r"\b([dz]%s_|%s\s*\[\s*\w+\s*\])\s*\(" % (routine, routine))
+    scals = calls(r"\b([dz]scal_|scal\s*\[\s*\w+\s*\])\s*\(")
+    n = 0
+    for nm, args, pos in scals:
+        arm = nm[0] if nm[0] in "dz" and nm.endswith("_") else ""
+        main = [a for mn, a, _ in mains if (mn[0] if mn.endswith("_") else "") == arm and len(a) == len(params)]
+        if not main or len(args) != 4:
+            continue
+        n += 1
+        key = "%s:%s(%s, ..) fallback scales by beta" % (fn, nm.replace(" ", ""), args[0])
+        where = "src/C/%s:%s:%d" % (c.name, fn, c.line_of(node["b"]) + txt[:pos].count("\n"))
+        want = (main[0][ib], main[0][iy], main[0][iinc])
+        got = (args[1], args[2], args[3])
+        if got == want:
+            rule.ok(key, where, "scal(.., %s, %s, %s)" % got)
+        else:
+            rule.violation(key, where,
+                           "the zero-dimension fallback computes y := (%s)*y on (%s, %s) but the main call passes beta = %s, y = %s, incy = %s: "
+                           "with an empty inner dimension the result must be beta*y" % (got[0], got[1], got[2], want[0], want[1], want[2]),
+                           "scal(&dim, %s, %s, %s)" % want, "scal(&dim, %s, %s, %s)" % got)
+    return n
+
+
 STORE_EXCEPTIONS = {
     "gees": "the real Schur routine returns the eigenvalues in two real arrays that the real arm merges into W; the complex routine writes W itself",
     "gges": "real arm merges alphar/alphai into a; the complex arm extracts the real beta from a complex array",
